@@ -101,8 +101,16 @@ func (s *Server) cmdSetHook(msg *Message) (
 		break
 	}
 	args, err := s.cmdSearchArgs(true, cmdlc, vs, types)
+	// The interpreters of the fence's WHEREEVAL filters belong to the hook
+	// for as long as it is installed. They only go back to the pool here
+	// when the hook is not installed after all.
+	keepLua := false
 	if args.usingLua() {
-		defer args.Close()
+		defer func() {
+			if !keepLua {
+				args.Close()
+			}
+		}()
 	}
 	if err != nil {
 		return NOMessage, d, err
@@ -180,6 +188,7 @@ func (s *Server) cmdSetHook(msg *Message) (
 	d.updated = true
 	d.timestamp = time.Now()
 
+	keepLua = true
 	s.hooks.Set(hook)
 	if hook.Fence.detect == nil || hook.Fence.detect["outside"] {
 		s.hooksOut.Set(hook)
@@ -565,16 +574,20 @@ func (h *Hook) Open() {
 
 // Close closed the hook and stop the manager function
 func (h *Hook) Close() {
-	if h.channel {
-		// nothing to close for channels
-		return
-	}
 	h.cond.L.Lock()
 	defer h.cond.L.Unlock()
 	if h.closed {
 		return
 	}
 	h.closed = true
+	if h.Fence != nil {
+		// give the interpreters of the WHEREEVAL filters back to the pool
+		h.Fence.Close()
+	}
+	if h.channel {
+		// nothing else to close for channels
+		return
+	}
 	h.cond.Broadcast()
 }
 
